@@ -97,15 +97,19 @@ func (p *Pool) Get() any {
 	return nil
 }
 
-// VerifResetPools empties every pool of the process.
+// VerifResetPools empties every pool of the process and forgets them (a pool
+// registers again with its next Put), so that pools embedded in objects of a
+// finished run do not keep those objects alive.
 func VerifResetPools() {
 	verifPools.mu.Lock()
-	all := append([]*Pool(nil), verifPools.all...)
+	all := verifPools.all
+	verifPools.all = nil
 	verifPools.mu.Unlock()
 	for _, p := range all {
 		p.mu.Lock()
 		clear(p.items)
-		p.items = p.items[:0]
+		p.items = nil
+		p.reg = false
 		p.mu.Unlock()
 	}
 }
